@@ -9,7 +9,20 @@ only = sys.argv[2:]
 props = {json.loads(l)['id']: json.loads(l) for l in open('/verif/properties.jsonl')}
 os.makedirs('/tmp/seedprompts', exist_ok=True)
 extra = ""
-if suffix >= 'g':
+if suffix >= 'h':
+    extra = ("\nFor this round the breakage must need SIZE or HISTORY to manifest, not an exotic feature: it should be invisible "
+             "with the smallest instances and appear only from a certain count, depth or repetition on - e.g. only with the "
+             "third (or later) element / chunk / tool call / successor / branch / handler / reader / option, only at nesting "
+             "depth 2 or more (a graph inside a graph inside a graph), only on the SECOND resume of one checkpoint or the second "
+             "interrupt of one run, only on the second or third iteration of a cycle, only when a collection crosses a size "
+             "where a fast path switches to a general path (hand-unrolled cases vs reflection, small-buffer vs spill, "
+             "pre-sized slice vs growth), only when one object (graph, runnable, stream copy, option value, message, agent) is "
+             "used a second time after a first use that ended in an error / an interrupt / an early close. Avoid ideas that "
+             "amount to a shared buffer between concurrent runs, a renamed serialised field, errors.Is vs == for io.EOF, or a "
+             "dropped lock (used many times already). Before you edit, write down THREE candidates in three different files, "
+             "each naming the smallest instance on which it manifests; implement the one whose smallest failing instance is "
+             "the LARGEST while your demonstration still runs in under a second.\n")
+elif suffix >= 'g':
     extra = ("\nRestriction for this round: earlier rounds have changed graph_run.go, graph_manager.go, graph.go, tool_node.go, "
              "utils.go, dag.go, workflow.go, field_mapping.go, generic_helper.go, state.go, runnable.go, error.go, checkpoint.go, "
              "stream.go, message.go, select.go, serialization.go, concat.go and react.go many times. Your change must be in a file "
